@@ -19,6 +19,7 @@ from vlib.content import num
 PROPS = ["MxlVerif.Props.C05"]
 F_HOMODIMER = "F-C05-1"
 F_ZEROLABEL = "F-C05-2"
+F_DANGLING = "F-C05-4"
 
 # --------------------------------------------------------------------------- wire helpers
 
@@ -263,7 +264,14 @@ def _real_worker(case):
     out["build"] = {"ok": True}
     out["attrs"] = attrs_of(mapper)
     out["dims"] = real_dims(case, base)
-    out["rxns"] = canon_rxns([[k, r.args, list(r.stoichiometry.items())] for k, r in lm.get_raw_reactions().items()])
+    out["uraw"] = real_unmapped(case, lm)
+    try:
+        lm.get_right_hand_side(dict(lm.get_initial_conditions()), 0.0)
+        out["evaluates"] = {"ok": True}
+    except Exception as e:  # noqa: BLE001
+        out["evaluates"] = _exc(e)
+    ru_ = raw_unmapped(case)  # compared as written (`uraw`), not through the integer reaction list
+    out["rxns"] = canon_rxns([[k, r.args, list(r.stoichiometry.items())] for k, r in lm.get_raw_reactions().items() if k not in ru_])
     try:
         out["vars"] = {"ok": sorted([k, num(v)] for k, v in lm.get_initial_conditions().items())}
     except Exception as e:  # noqa: BLE001
@@ -336,6 +344,67 @@ def _real_worker(case):
     return out
 
 
+def coef_spec(v):
+    from mxlpy.model import Derived
+
+    if isinstance(v, Derived):
+        return "derived"
+    if isinstance(v, int):
+        return {"int": str(v)}
+    return {"float": num(v)}
+
+
+def real_unmapped(case, lm):
+    """the reactions without a label map as they arrived in the labelled model: name, arguments, raw stoichiometry"""
+    maps = dict((k, v) for k, v in case["maps"])
+    rx = lm.get_raw_reactions()
+    out = []
+    for name, _ in case["base"]["rxns"]:
+        if name in maps:
+            continue
+        r = rx.get(name)
+        if r is None:
+            out.append([name, "missing"])
+        else:
+            out.append([name, list(r.args), [[c, coef_spec(v)] for c, v in r.stoichiometry.items()]])
+    return out
+
+
+def spec_unmapped(case):
+    """declaratively: own name, labelled arguments read `<compound>__total`, stoichiometry exactly as in the base model"""
+    lv = lv_of(case)
+    maps = dict((k, v) for k, v in case["maps"])
+    raw = raw_of(case)
+    out = []
+    for name, r in case["base"]["rxns"]:
+        if name in maps:
+            continue
+        st = raw[name] if name in raw else [[c, {"int": v}] for c, v in r["st"]]
+        out.append([name, [a + "__total" if a in lv else a for a in r["args"]],
+                    [[c, (spec if spec == "derived" else {k: (str(v) if k == "int" else num(Fraction(v))) for k, v in spec.items()})]
+                     for c, spec in st]])
+    return out
+
+
+def spec_dangling(case):
+    """compounds with label positions that a reaction without a label map changes: the labelled model names them in a
+    stoichiometry but has only their isotopomers as variables"""
+    lv = lv_of(case)
+    maps = dict((k, v) for k, v in case["maps"])
+    raw = raw_of(case)
+    out = []
+    for name, r in case["base"]["rxns"]:
+        if name not in maps:
+            st = raw[name] if name in raw else r["st"]
+            out += [c for c, _ in st if lv.get(c, 0) > 0]
+    return out
+
+
+def raw_unmapped(case):
+    maps = dict((k, v) for k, v in case["maps"])
+    return {k for k in raw_of(case) if k not in maps}
+
+
 def real_dims(case, base):
     """per mapped reaction: substrate / product label positions and the external label string, from the real helpers"""
     from mxlpy import label_map as L
@@ -361,7 +430,9 @@ def real_dims(case, base):
                for name, rxn in base.get_raw_reactions().items() for x, _ in case["base"]["vars"]]
     except Exception as e:  # noqa: BLE001
         return _exc(e)
-    return {"ok": out, "net": net}
+    # the label string of every initial_labels entry of a listed compound, by Python's own `idx in positions`
+    suf = [[k, "".join("1" if idx in pos else "0" for idx in range(lv[k]))] for k, pos in case.get("init", []) if k in lv]
+    return {"ok": out, "net": net, "initsuf": suf}
 
 
 # --------------------------------------------------------------------------- oracle (declarative)
@@ -489,12 +560,14 @@ def spec_queries(case):
         if q[0] == "of":
             out.append({"ok": iso_names(x, n)})
         elif q[0] == "at":
-            if any(p >= n for p in q[2]):
-                out.append({"err": ["IndexError"]})
+            if any(p >= n or p < -n for p in q[2]):
+                out.append({"err": ["IndexError"]})  # `label_positions[p] = "1"`: -n <= p < n, a negative p counts from the end
             elif n == 0:
                 out.append(None)
             else:
-                out.append({"ok": [x + "__" + b for b in allbits if all(b[p] == "1" for p in q[2])]})
+                out.append({"ok": [x + "__" + b for b in allbits if all(b[p % n] == "1" for p in q[2])]})
+        elif q[2] < 0:
+            out.append({"err": ["ValueError"]})  # it.combinations(range(n), k) refuses a negative k
         elif n == 0:
             out.append(None)
         else:
@@ -518,12 +591,16 @@ def gen_queries(rng, case):
             ps = sorted(rng.sample(range(n), rng.randint(0, min(n, 2)))) if n else []
             if rng.random() < 0.1:
                 ps = ps + [n + rng.randint(0, 1)]
+            if n and rng.random() < 0.2:
+                ps = [p - n if (p < n and rng.random() < 0.6) else p for p in ps]  # written from the end
+                if rng.random() < 0.2:
+                    ps = ps + [-n - 1]
             q = ["at", x, ps]
             if len(ps) == 1 and rng.random() < 0.5:
                 q.append("int")
             qs.append(q)
         else:
-            qs.append(["n", x, rng.randint(0, n + 1)])
+            qs.append(["n", x, rng.randint(0, n + 1) if rng.random() < 0.9 else -rng.randint(1, 2)])
     return qs
 
 
@@ -610,7 +687,10 @@ def model_request(case):
 def canon_Q(m):
     return {"queries": [({"ok": q["ok"]} if "ok" in q else {"err": [q["err"][0]]}) for q in m.get("queries", [])],
             "isos": {"ok": m.get("isos", [])},
-            "dims": {"ok": [list(d) for d in m.get("dims", [])], "net": [list(d) for d in m.get("net", [])]}}
+            "dims": {"ok": [list(d) for d in m.get("dims", [])], "net": [list(d) for d in m.get("net", [])],
+                     "initsuf": [list(d) for d in m.get("initsuf", [])]},
+            "uraw": [[n, list(a), [[c, (sp if sp == "derived" else dict(sp))] for c, sp in st]] for n, a, st in m.get("uraw", [])],
+            "evaluates": {"ok": True} if not m.get("dangling") else {"err": ["KeyError"]}}
 
 
 def canon_M(m):
@@ -627,8 +707,8 @@ def canon_M(m):
         "vars": {"ok": sorted(o["vars"])},
         "derived": sorted(o["derived"]),
         "pars": sorted(o["pars"]),
-        "rhs": [{"ok": sorted(r)} for r in o["rhs"]],
-        "sums": [{"ok": s} for s in o["sums"]],
+        "rhs": [({"ok": sorted(r)} if isinstance(r, list) else r) for r in o["rhs"]],
+        "sums": [({"ok": s} if isinstance(s, list) else s) for s in o["sums"]],
         "base_rhs": [{"ok": s} for s in o["base_rhs"]],
         "fluxes": [{"ok": s} for s in o["fluxes"]],
         "posflux": [{"ok": [list(x) for x in s]} for s in o["posflux"]],
@@ -647,9 +727,27 @@ def evaluate_fresh(cases, use_driver=True):
 def evaluate(cases, use_driver=True):
     if cases and all(c.get("mutate") for c in cases):
         return evaluate_fresh(cases, use_driver)
-    Rs = pool().map(real_worker, cases, chunksize=4)
+    p = pool()  # (created before the thread below: the workers are forked from a single-threaded process)
+    box = {}
+    th = None
     if use_driver:
-        Ms = [canon_M(m) for m in driver.call_batch([model_request(c) for c in cases])]
+        # the Lean driver works on the batch while the workers run the real code
+        import threading
+
+        def run_driver():
+            try:
+                box["M"] = driver.call_batch([model_request(c) for c in cases])
+            except BaseException as e:  # noqa: BLE001
+                box["err"] = e
+
+        th = threading.Thread(target=run_driver)
+        th.start()
+    Rs = p.map(real_worker, cases, chunksize=4)
+    if th is not None:
+        th.join()
+        if "err" in box:
+            raise box["err"]
+        Ms = [canon_M(m) for m in box["M"]]
     else:
         Ms = [None] * len(cases)
     return list(zip(Rs, Ms))
@@ -693,6 +791,23 @@ def judge_case(ctx, case, R, M):
         return
     nd = nondistinct_rxns(case)
     cov = covers_products(case)
+    # 1b. reactions without a label map: passed through untouched; labelled compounds they change dangle
+    ctx.judge(sub, R["uraw"], spec_unmapped(case), None if M is None else M["uraw"],
+              what="reactions without a label map: own name, totals as arguments, stoichiometry untouched")
+    if cov:  # (a map that does not cover the product atoms leaves dangling product names of its own: outside the domain)
+        # a labelled model that was built can be evaluated - except finding F-C05-4: an unmapped reaction that changes
+        # a compound with label positions leaves a dangling name (R = M = KeyError, class = spec_dangling)
+        ctx.judge(sub, R["evaluates"], {"ok": True}, None if M is None else M["evaluates"],
+                  finding=F_DANGLING if spec_dangling(case) else None,
+                  what="the labelled model that build_model returned evaluates at its initial state")
+    ru = raw_unmapped(case)
+    if ru:
+        # their coefficients are compared above as written; the integer reaction lists below leave them out
+        drop = lambda rx: [r for r in rx if r[0] not in ru]  # noqa: E731
+        R = dict(R, rxns=drop(R["rxns"]))
+        srx = drop(srx)
+        if M is not None:
+            M = dict(M, rxns=drop(M["rxns"]))
     # 2. structure: names and stoichiometries always; arguments outside the finding class
     strip = lambda rx: [[n, st] for n, _, st in rx]  # noqa: E731
     if cov:
@@ -1014,9 +1129,16 @@ def random_case(rng):
                 pos = []
             else:
                 pos = sorted(rng.sample(range(n), rng.randint(0, n)))
+            if rng.random() < 0.15:
+                # positions that match nothing: beyond the compound, negative; they are ignored, not rejected
+                pos = pos + [rng.choice([n, n + 1, -1, -n - 1])]
+                rng.shuffle(pos)
             init.append([c, pos])
             if len(pos) == 1 and rng.random() < 0.5:
                 init_as_int.append(c)
+    if rng.random() < 0.06:
+        # an entry for a compound that is not listed in label_variables / not in the model at all: never read
+        init.append([rng.choice(unl + ["Q9"]), [rng.randint(0, 2)]])
     case = {
         "lv": [[c, labels[c]] for c in cpds if labels[c] is not None],
         "maps": maps, "init": init, "init_as_int": init_as_int, "ma": ma,
@@ -1041,6 +1163,20 @@ def random_case(rng):
             else:
                 coefs.append([c, {"int": v}])
         case["base"]["raw"] = [[name, coefs]]
+    unm = [k for k, _ in rxns if k not in dict(maps)]
+    if unm and rng.random() < 0.25 and not case["base"].get("raw"):
+        # a reaction without a label map written with floats / halves / a Derived: passed through untouched
+        name = rng.choice(unm)
+        kind = rng.choice(["float", "half", "derived"])
+        st = dict(rxns)[name]["st"]
+        case["base"]["raw"] = [[name, [[c, {"float": str(v)} if kind == "float" else
+                                        ({"float": f"{2 * v + 1}/2"} if kind == "half" else "derived")] for c, v in st]]]
+        if kind != "float":
+            case["states"] = []  # the integer reaction list of the model does not carry these coefficients: structure only
+    if maps and rng.random() < 0.03 and not case["base"].get("raw"):
+        # the user forgot the map of a reaction that changes labelled compounds: the model builds, evaluation fails
+        case["maps"] = [m_ for m_ in maps if m_[0] != maps[-1][0]]
+        case["ma"] = [k for k in ma if k != maps[-1][0]]
     return case
 
 
@@ -1195,18 +1331,26 @@ def setup(ctx):
     )
     ctx.assumptions += [
         "base names contain no '__' (structural names render injectively)",
-        "base stoichiometries are integers; rate functions are pure functions of their arguments",
-        "non-negative map indices and query positions (negative Python indices are not modelled)",
+        "rate functions are pure functions of their arguments; an unmapped reaction written with fractional / Derived coefficients is compared as written, not numerically",
         "compound names are identifiers (no regular-expression metacharacters: get_isotopomers_of_at_position matches by regex)",
         "float rounding not modelled: integer states and + - * rate laws, compared exactly",
     ]
     ctx.trusted_base += ["Model.get_right_hand_side sums stoichiometry x rate (property C01)"]
 
 
+def numeric_ok(case):
+    """the model's integer reaction list carries every coefficient (an unmapped reaction written with fractional or
+    Derived coefficients is compared as written only)"""
+    raw = raw_of(case)
+    return all(first_bad(raw[k]) is None for k in raw_unmapped(case))
+
+
 def run_cases(ctx, cases, rng):
     for c in cases:
         if "states" not in c:
             c["states"] = gen_states(rng, c)
+        if not numeric_ok(c):
+            c["states"] = []
     B = 400
     for i in range(0, len(cases), B):
         chunk = cases[i:i + B]
@@ -1222,6 +1366,9 @@ def run(ctx):
     ex = exhaustive_cases(ctx.tier)
     ctx.exhaustive = True
     ctx.extra_cov["exhaustive_stratum"] = len(ex)
+    if ctx.tier == "quick":
+        for c in ex:
+            c.setdefault("states", gen_states(rng, c, n=1))  # one state per structural case in quick, two in thorough
     run_cases(ctx, ex, rng)
     n = ctx.n(4000, 120000)
     if not ctx.proof_ok or ctx.drift:
